@@ -17,6 +17,6 @@ PROP = {
 
 TEXT = {
     "technique": "property-based testing: %f/%e/%g directive grammar x boundary-biased doubles; differential against host snprintf with an ISO-shape + half-digit-accuracy fallback where the digits differ; watchdog for termination, ASan/UBSan for the internal buffers, callback count vs return value; libFuzzer in thorough",
-    "level": "Generated-input exploration: every conversion f F e E g G with any flag subset, literal and * widths, precisions none/./0..17 (tail to 40)/.* is applied to doubles drawn from zero, +-0, denormals, DBL_MIN/MAX, powers of two and ten +- ulps, decimal ties, short decimals, infinities, NaNs and random bit patterns. Every case must terminate (10 s watchdog), be sanitizer-clean and return exactly the number of characters emitted; finite cases must equal glibc's output or else have the ISO shape of the directive (sign/padding/zero-fill rules, digit counts, %g style selection by the exponent of the rounded value, no trailing zeros without #) and parse back to within half a unit of the last ISO-required digit + 4 ulp.  A separate target uses widths 41..1100 (all clauses judged) and precisions 41..1100 (termination, memory safety, count, width and f/e digit counts judged; accuracy only inside the quantified precisions). Nothing is established beyond the explored inputs.",
+    "level": "Generated-input exploration: every conversion f F e E g G with any flag subset, literal and * widths, precisions none/./0..17 (tail to 40)/.* is applied to doubles drawn from zero, +-0, denormals, DBL_MIN/MAX, powers of two and ten +- ulps, decimal ties, short decimals, infinities, NaNs and random bit patterns. Every case must terminate (10 s watchdog), be sanitizer-clean and return exactly the number of characters emitted; finite cases must equal glibc's output or else have the ISO shape of the directive (sign/padding/zero-fill rules, digit counts, %g style selection by the exponent of the rounded value, no trailing zeros without #) and parse back to within half a unit of the last ISO-required digit + 4 ulp.  A separate target uses widths 41..1100 (all clauses judged) and precisions 41..1100 (termination, memory safety, count, width and f/e digit counts judged; accuracy only inside the quantified precisions). Nothing is established beyond the explored inputs. A third of the directives carry the l length modifier.",
     "note": "Trusted: glibc snprintf and strtold; 'a few ulps' is read as 4 ulp of the argument; L (long double) arguments and %a are outside the statement and not generated.",
 }
